@@ -100,6 +100,7 @@ def build(tier):
     p.sub("E12", r"ty: &Type<P>", "ty: &Type", count=1, why="position marker erased")
     p.sub("E1", r"pub\(super\) ", "pub ", count=1)
     p.sub("E6t", r"variable_name: Cow<'tcx, str>", "variable_name: JsExpr", count=1, why="JS expression carried as (base, offset, reader)")
+    p.sub("E6t", r": Cow<'tcx, str> =", ": JsExpr =", count=None, why="local type annotations follow")
     p.sub("E6t", r"\(r: Cow<'tcx, str>\)", "(r: JsExpr)", count=1)
     fm = [m for m in it["macros"] if m["name"] == "format"]
     if len(fm) != 4:
